@@ -793,4 +793,531 @@ theorem Diagram_route {p : Proc N} {prog : List (Instr N)} (hwf : wfProc p = tru
     rw [List.length_reverse, ← head?_getD_eq_reverse_getD, ← hs.util_eq]
     exact all_retiring_of_le (wfProc_nodup_names hwf) hs.row hs.nd (by have := hs.exit; omega)
 
+/-! ## 6. `Ctx.positions` -/
+
+section positions
+omit [LT N] [DecidableRel (α := N) (· < ·)]
+
+namespace Routes
+
+theorem filter_idx_length_le_one {l : List HI} (hn : (l.map (·.idx)).Nodup) (i : Nat) :
+    (l.filter (fun h => h.idx == i)).length ≤ 1 := by
+  induction l with
+  | nil => simp
+  | cons h l ih =>
+    simp only [List.map_cons, List.nodup_cons] at hn
+    rw [List.filter_cons]
+    split
+    · next hi =>
+      have hi' : h.idx = i := by simpa using hi
+      have : l.filter (fun h => h.idx == i) = [] := by
+        rw [List.filter_eq_nil_iff]
+        intro x hx hxi
+        have hxi' : x.idx = i := by simpa using hxi
+        exact hn.1 (List.mem_map.2 ⟨x, hx, by rw [hi', hxi']⟩)
+      simp [this]
+    · exact ih hn.2
+
+theorem flatMap_length_le_one {α β : Type} {l : List α} {f : α → List β} (hl : l.Nodup)
+    (h1 : ∀ a ∈ l, (f a).length ≤ 1) (h2 : ∀ a ∈ l, ∀ b ∈ l, f a ≠ [] → f b ≠ [] → a = b) :
+    (l.flatMap f).length ≤ 1 := by
+  induction l with
+  | nil => simp
+  | cons a l ih =>
+    rw [List.nodup_cons] at hl
+    rw [List.flatMap_cons, List.length_append]
+    by_cases ha : f a = []
+    · rw [ha]
+      simpa using ih hl.2 (fun b hb => h1 b (List.mem_cons_of_mem _ hb))
+        (fun b hb c hc => h2 b (List.mem_cons_of_mem _ hb) c (List.mem_cons_of_mem _ hc))
+    · have : l.flatMap f = [] := by
+        rw [List.flatMap_eq_nil_iff]
+        intro b hb
+        refine Classical.byContradiction (fun hne => ?_)
+        have := h2 a List.mem_cons_self b (List.mem_cons_of_mem _ hb) ha hne
+        exact hl.1 (this ▸ hb)
+      rw [this]; simpa using h1 a List.mem_cons_self
+
+theorem nodup_of_nodup_map {α β : Type} (f : α → β) {l : List α} (h : (l.map f).Nodup) : l.Nodup := by
+  induction l with
+  | nil => simp
+  | cons a l ih =>
+    simp only [List.map_cons, List.nodup_cons] at h ⊢
+    exact ⟨fun ha => h.1 (List.mem_map.2 ⟨a, ha, rfl⟩), ih h.2⟩
+
+theorem eq_singleton_of_length_le_one {α : Type} {l : List α} (h1 : l.length ≤ 1) (h2 : l ≠ []) : ∃ x, l = [x] := by
+  match l, h1, h2 with
+  | [], _, h2 => exact absurd rfl h2
+  | [x], _, _ => exact ⟨x, rfl⟩
+  | _ :: _ :: _, h1, _ => simp at h1
+
+/-- a flat-map of singletons over consecutive numbers is a chain of whatever relates neighbours -/
+theorem adjacent_flatMap_range' {α : Type} (g : Nat → List α) (R : α → α → Prop) :
+    ∀ (m f : Nat), (∀ t, f ≤ t → t < f + m → ∃ x, g t = [x]) →
+      (∀ t a b, f ≤ t → t + 1 < f + m → a ∈ g t → b ∈ g (t + 1) → R a b) →
+      Adjacent R ((List.range' f m).flatMap g)
+  | 0, f, _, _ => by simp [Adjacent]
+  | 1, f, hs, _ => by
+    obtain ⟨x, hx⟩ := hs f (Nat.le_refl _) (by omega)
+    simp [List.range'_succ, hx, Adjacent]
+  | m + 2, f, hs, hr => by
+    obtain ⟨a, ha⟩ := hs f (Nat.le_refl _) (by omega)
+    obtain ⟨b, hb⟩ := hs (f + 1) (by omega) (by omega)
+    have ih := adjacent_flatMap_range' g R (m + 1) (f + 1) (fun t h1 h2 => hs t (by omega) (by omega))
+      (fun t a b h1 h2 => hr t a b (by omega) (by omega))
+    rw [List.range'_succ, List.flatMap_cons, ha]
+    rw [List.range'_succ, List.flatMap_cons, hb] at ih ⊢
+    exact ⟨hr f a b (Nat.le_refl _) (by omega) (by rw [ha]; simp) (by rw [hb]; simp), ih⟩
+
+theorem head?_flatMap_range' {α : Type} (g : Nat → List α) (f m : Nat) (hm : 0 < m) (hf : g f ≠ []) :
+    ((List.range' f m).flatMap g).head? = (g f).head? := by
+  obtain ⟨m', rfl⟩ : ∃ m', m = m' + 1 := ⟨m - 1, by omega⟩
+  rw [List.range'_succ, List.flatMap_cons, List.head?_append]
+  cases h : g f with
+  | nil => exact absurd h hf
+  | cons a l => rfl
+
+theorem getLast?_flatMap_range' {α : Type} (g : Nat → List α) (f m : Nat) (hl : g (f + m) ≠ []) :
+    ((List.range' f (m + 1)).flatMap g).getLast? = (g (f + m)).getLast? := by
+  rw [List.range'_concat, List.flatMap_append, List.getLast?_append]
+  simp only [Nat.one_mul, List.flatMap_cons, List.flatMap_nil, List.append_nil]
+  cases h : g (f + m) with
+  | nil => exact absurd h hl
+  | cons a l => rw [List.getLast?_cons]; rfl
+
+theorem exists_bracket (E : Nat → Nat) (i : Nat) : ∀ T, E 0 ≤ i → i < E T → ∃ f, f < T ∧ E f ≤ i ∧ i < E (f + 1)
+  | 0, h0, hT => by omega
+  | T + 1, h0, hT => by
+    by_cases h : i < E T
+    · obtain ⟨f, hf, h1, h2⟩ := exists_bracket E i T h0 h
+      exact ⟨f, by omega, h1, h2⟩
+    · exact ⟨T, by omega, by omega, hT⟩
+
+end Routes
+
+/-- the positions of instruction `i` in cycle `t` (the inner part of `Ctx.positions`) -/
+def Spec.Ctx.rowPos (c : Ctx N) (i t : Nat) : List (Nat × UnitM N × Stall) :=
+  c.units.flatMap (fun u => ((c.occ t u.name).filter (fun h => h.idx == i)).map (fun h => (t, u, h.st)))
+
+/-- instruction `i` is hosted by some unit in cycle `t` -/
+def Spec.Ctx.hostedAt (c : Ctx N) (i t : Nat) : Prop := ∃ n, i ∈ ((c.row t).get n).map (·.idx)
+
+theorem positions_eq_flatMap (c : Ctx N) (i : Nat) : c.positions i = (List.range c.T).flatMap (c.rowPos i) := rfl
+
+theorem mem_rowPos {c : Ctx N} {i t : Nat} {x : Nat × UnitM N × Stall} :
+    x ∈ c.rowPos i t ↔ x.1 = t ∧ x.2.1 ∈ c.units ∧ (⟨i, x.2.2⟩ : HI) ∈ c.occ t x.2.1.name := by
+  obtain ⟨t', u, l⟩ := x
+  simp only [Ctx.rowPos, List.mem_flatMap, List.mem_map, List.mem_filter, beq_iff_eq, Prod.mk.injEq]
+  constructor
+  · rintro ⟨u', hu', h, ⟨hh, hi⟩, e1, e2, e3⟩
+    subst e1 e2 e3
+    obtain ⟨hidx, hst⟩ := h
+    simp only at hi
+    subst hi
+    exact ⟨rfl, hu', hh⟩
+  · rintro ⟨e1, hu, hh⟩
+    subst e1
+    exact ⟨u, hu, ⟨i, l⟩, ⟨hh, rfl⟩, rfl, rfl, rfl⟩
+
+/-- **Positions, characterised**: `(t, u, l)` is a position of `i` iff `t` is a recorded cycle, `u` a unit of the
+processor, and `u` hosts `i` with label `l` in cycle `t` -/
+theorem mem_positions {c : Ctx N} {i : Nat} {x : Nat × UnitM N × Stall} :
+    x ∈ c.positions i ↔ x.1 < c.T ∧ x.2.1 ∈ c.units ∧ (⟨i, x.2.2⟩ : HI) ∈ c.occ x.1 x.2.1.name := by
+  rw [positions_eq_flatMap, List.mem_flatMap]
+  constructor
+  · rintro ⟨t, ht, hx⟩
+    obtain ⟨e1, h2, h3⟩ := mem_rowPos.1 hx
+    rw [e1]; exact ⟨List.mem_range.1 ht, h2, h3⟩
+  · rintro ⟨h1, h2, h3⟩
+    exact ⟨x.1, List.mem_range.2 h1, mem_rowPos.2 ⟨rfl, h2, h3⟩⟩
+
+/-- **One unit per row**: in a row where no index is hosted twice, an instruction has at most one position -/
+theorem rowPos_length_le_one {c : Ctx N} (hn : (c.units.map (·.name)).Nodup) {t : Nat} (hnd : RowND (c.row t))
+    (i : Nat) : (c.rowPos i t).length ≤ 1 := by
+  unfold Ctx.rowPos
+  apply flatMap_length_le_one (nodup_of_nodup_map _ hn)
+  · intro u _
+    rw [List.length_map]
+    exact filter_idx_length_le_one (hnd.nodup_unit u.name) i
+  · intro a ha b hb h1 h2
+    have key : ∀ u : UnitM N, ((c.occ t u.name).filter (fun h => h.idx == i)).map (fun h => (t, u, h.st)) ≠ [] →
+        i ∈ ((c.row t).get u.name).map (·.idx) := by
+      intro u hne
+      obtain ⟨x, hx⟩ := List.exists_mem_of_ne_nil _ hne
+      obtain ⟨h, hh, _⟩ := List.mem_map.1 hx
+      obtain ⟨hh1, hh2⟩ := List.mem_filter.1 hh
+      exact List.mem_map.2 ⟨h, hh1, by simpa using hh2⟩
+    exact unit_eq_of_name_eq hn ha hb (hnd.unique_host _ _ i (key a h1) (key b h2))
+
+theorem rowPos_ne_nil_iff {c : Ctx N} {e i t : Nat} (hb : RowBase c.p e (c.row t)) :
+    c.rowPos i t ≠ [] ↔ c.hostedAt i t := by
+  constructor
+  · intro hne
+    obtain ⟨x, hx⟩ := List.exists_mem_of_ne_nil _ hne
+    obtain ⟨_, _, h3⟩ := mem_rowPos.1 hx
+    exact ⟨x.2.1.name, List.mem_map.2 ⟨_, h3, rfl⟩⟩
+  · rintro ⟨n, hn⟩
+    obtain ⟨h, hh, hi⟩ := List.mem_map.1 hn
+    have hne : (c.row t).get n ≠ [] := by intro e0; rw [e0] at hh; cases hh
+    obtain ⟨u, hu, hun⟩ := List.mem_map.1 (hb.names n hne)
+    have : (t, u, h.st) ∈ c.rowPos i t := by
+      refine mem_rowPos.2 ⟨rfl, hu, ?_⟩
+      show (⟨i, h.st⟩ : HI) ∈ (c.row t).get u.name
+      rw [hun, ← hi]; exact hh
+    intro e0; rw [e0] at this; cases this
+
+theorem rowPos_eq_nil_of_not_hosted {c : Ctx N} {e i t : Nat} (hb : RowBase c.p e (c.row t))
+    (h : ¬ c.hostedAt i t) : c.rowPos i t = [] :=
+  Classical.byContradiction (fun hne => h ((rowPos_ne_nil_iff hb).1 hne))
+
+/-- What `Diagram_route` provides, as a hypothesis on a context (so that the list-level arguments do not depend on
+`simulate`). -/
+structure Routed (c : Ctx N) (E : Nat → Nat) : Prop where
+  names : (c.p.allUnits.map (·.name)).Nodup
+  order : orderOK c.p = true
+  zero : E 0 = 0
+  le_n : E c.T ≤ c.n
+  step : ∀ t, t < c.T → StepB c.p c.prog (E t) (prevRow c.tbl t) (c.row t) (E (t + 1))
+  done : c.stalled = false → E c.T = c.n ∧
+    ∀ n x, x ∈ (c.row (c.T - 1)).get n → n ∈ c.p.outBoundary ∧ x.st = .U
+
+namespace Routed
+variable {c : Ctx N} {E : Nat → Nat}
+
+omit [DecidableEq N] in
+theorem prevRow_succ (c : Ctx N) (t : Nat) : prevRow c.tbl (t + 1) = c.row t := by
+  simp [prevRow, Ctx.row]
+
+theorem mono (h : Routed c E) : ∀ {t t' : Nat}, t ≤ t' → t' ≤ c.T → E t ≤ E t' := by
+  intro t t' h1 h2
+  induction t' with
+  | zero => have : t = 0 := by omega
+            rw [this]; exact Nat.le_refl _
+  | succ k ih =>
+    by_cases hk : t = k + 1
+    · rw [hk]; exact Nat.le_refl _
+    · have := (h.step k (by omega)).le
+      have := ih (by omega) (by omega)
+      omega
+
+theorem hosted_lt (h : Routed c E) {i t : Nat} (ht : t < c.T) (hh : c.hostedAt i t) : i < E (t + 1) := by
+  obtain ⟨n, hn⟩ := hh
+  obtain ⟨x, hx, rfl⟩ := List.mem_map.1 hn
+  exact (h.step t ht).newBase.idx_lt n x hx
+
+theorem hosted_of_issued (h : Routed c E) {i t : Nat} (ht : t < c.T) (h1 : E t ≤ i) (h2 : i < E (t + 1)) :
+    c.hostedAt i t := (h.step t ht).hosted i h1 h2
+
+theorem hosted_prev_or_issued (h : Routed c E) {i t : Nat} (ht : t < c.T) (hh : c.hostedAt i t) :
+    (0 < t ∧ c.hostedAt i (t - 1)) ∨ (E t ≤ i ∧ i < E (t + 1)) := by
+  obtain ⟨n, hn⟩ := hh
+  rcases (h.step t ht).hosted_old_or_new hn with ⟨n', hn'⟩ | h2
+  · left
+    cases t with
+    | zero => simp [prevRow] at hn'
+    | succ k =>
+      rw [prevRow_succ] at hn'
+      exact ⟨by omega, n', by simpa using hn'⟩
+  · exact Or.inr h2
+
+theorem not_hosted_succ (h : Routed c E) {i t : Nat} (ht : t + 1 < c.T) (hi : i < E (t + 1))
+    (hh : ¬ c.hostedAt i t) : ¬ c.hostedAt i (t + 1) := by
+  intro hh'
+  rcases h.hosted_prev_or_issued ht hh' with ⟨_, h2⟩ | ⟨h2, _⟩
+  · exact hh (by simpa using h2)
+  · omega
+
+/-- **The rows hosting an issued instruction form one interval** `[f, f + m)`, `f` being the cycle of issue. -/
+theorem interval (h : Routed c E) {i : Nat} (hi : i < E c.T) :
+    ∃ f m, 0 < m ∧ f + m ≤ c.T ∧ E f ≤ i ∧ i < E (f + 1) ∧
+      ∀ t, t < c.T → (c.hostedAt i t ↔ f ≤ t ∧ t < f + m) := by
+  obtain ⟨f, hfT, hf1, hf2⟩ := exists_bracket E i c.T (by rw [h.zero]; exact Nat.zero_le _) hi
+  have hbefore : ∀ t, t < f → ¬ c.hostedAt i t := by
+    intro t ht hh
+    have := h.hosted_lt (by omega) hh
+    have := h.mono (t := t + 1) (t' := f) (by omega) (by omega)
+    omega
+  have key : ∀ T', f < T' → T' ≤ c.T →
+      ∃ m, 0 < m ∧ f + m ≤ T' ∧ ∀ t, f ≤ t → t < T' → (c.hostedAt i t ↔ t < f + m) := by
+    intro T'
+    induction T' with
+    | zero => intro h0; omega
+    | succ T' ih =>
+      intro h1 h2
+      by_cases hfT' : f = T'
+      · subst hfT'
+        refine ⟨1, by omega, by omega, ?_⟩
+        intro t ht1 ht2
+        have : t = f := by omega
+        subst this
+        exact ⟨fun _ => by omega, fun _ => h.hosted_of_issued hfT hf1 hf2⟩
+      · obtain ⟨m, hm0, hm1, hm2⟩ := ih (by omega) (by omega)
+        by_cases hh : c.hostedAt i T'
+        · have hfm : f + m = T' := by
+            refine Classical.byContradiction (fun hne => ?_)
+            have hnot : ¬ c.hostedAt i (T' - 1) := by
+              intro hh'
+              have := (hm2 (T' - 1) (by omega) (by omega)).1 hh'
+              omega
+            have hlt : i < E (T' - 1 + 1) := by
+              have := h.mono (t := f + 1) (t' := T' - 1 + 1) (by omega) (by omega)
+              omega
+            have := h.not_hosted_succ (t := T' - 1) (by omega) hlt hnot
+            rw [show T' - 1 + 1 = T' by omega] at this
+            exact this hh
+          refine ⟨m + 1, by omega, by omega, ?_⟩
+          intro t ht1 ht2
+          by_cases htT : t = T'
+          · subst htT; exact ⟨fun _ => by omega, fun _ => hh⟩
+          · have := hm2 t ht1 (by omega)
+            constructor
+            · intro a; have := this.1 a; omega
+            · intro _; exact this.2 (by omega)
+        · refine ⟨m, hm0, by omega, ?_⟩
+          intro t ht1 ht2
+          by_cases htT : t = T'
+          · subst htT; exact ⟨fun a => absurd a hh, fun _ => by omega⟩
+          · exact hm2 t ht1 (by omega)
+  obtain ⟨m, hm0, hm1, hm2⟩ := key c.T hfT (Nat.le_refl _)
+  refine ⟨f, m, hm0, hm1, hf1, hf2, ?_⟩
+  intro t ht
+  by_cases htf : t < f
+  · exact ⟨fun a => absurd a (hbefore t htf), fun a => by omega⟩
+  · have := hm2 t (by omega) ht
+    exact ⟨fun a => ⟨by omega, this.1 a⟩, fun a => this.2 a.2⟩
+
+theorem rowBase (h : Routed c E) {t : Nat} (ht : t < c.T) : RowBase c.p (E (t + 1)) (c.row t) :=
+  (h.step t ht).newBase
+
+theorem rowND (h : Routed c E) {t : Nat} (ht : t < c.T) : RowND (c.row t) := (h.step t ht).newND
+
+/-- the positions of an issued instruction are the positions in the rows of its interval -/
+theorem positions_eq_interval (h : Routed c E) {i f m : Nat} (hfm : f + m ≤ c.T)
+    (hiff : ∀ t, t < c.T → (c.hostedAt i t ↔ f ≤ t ∧ t < f + m)) :
+    c.positions i = (List.range' f m).flatMap (c.rowPos i) := by
+  have hsplit : List.range c.T = List.range' 0 f ++ (List.range' f m ++ List.range' (f + m) (c.T - (f + m))) := by
+    rw [List.range_eq_range']
+    have e1 : List.range' f m ++ List.range' (f + m) (c.T - (f + m)) = List.range' f (m + (c.T - (f + m))) := by
+      have := @List.range'_append f m (c.T - (f + m)) 1
+      simp only [Nat.one_mul] at this
+      exact this
+    have e2 : List.range' 0 f ++ List.range' f (m + (c.T - (f + m))) = List.range' 0 (f + (m + (c.T - (f + m)))) := by
+      have := @List.range'_append 0 f (m + (c.T - (f + m))) 1
+      simpa using this
+    rw [e1, e2]
+    congr 1; omega
+  have hnil : ∀ l : List Nat, (∀ t ∈ l, t < c.T ∧ ¬ (f ≤ t ∧ t < f + m)) → l.flatMap (c.rowPos i) = [] := by
+    intro l hl
+    rw [List.flatMap_eq_nil_iff]
+    intro t ht
+    obtain ⟨h1, h2⟩ := hl t ht
+    exact rowPos_eq_nil_of_not_hosted (h.rowBase h1) (fun a => h2 ((hiff t h1).1 a))
+  have h1 := hnil (List.range' 0 f) (by
+    intro t ht
+    obtain ⟨k, hk, rfl⟩ := List.mem_range'.1 ht
+    constructor <;> omega)
+  have h2 := hnil (List.range' (f + m) (c.T - (f + m))) (by
+    intro t ht
+    obtain ⟨k, hk, rfl⟩ := List.mem_range'.1 ht
+    constructor <;> omega)
+  rw [positions_eq_flatMap, hsplit, List.flatMap_append, List.flatMap_append, h1, h2]
+  simp
+
+theorem rowPos_singleton (h : Routed c E) {i t : Nat} (ht : t < c.T) (hh : c.hostedAt i t) :
+    ∃ x, c.rowPos i t = [x] :=
+  eq_singleton_of_length_le_one (rowPos_length_le_one h.names (h.rowND ht) i)
+    ((rowPos_ne_nil_iff (h.rowBase ht)).2 hh)
+
+end Routed
+
+/-- how two positions of instruction `i` in consecutive cycles are related: same unit (then `S` iff it was not
+data-stalled), or a move along a declared connection out of a unit where it was not data-stalled into a unit that
+supports its capability, arriving with `U` or `D` -/
+def PosStep (p : Proc N) (prog : List (Instr N)) (i : Nat) (a b : Nat × UnitM N × Stall) : Prop :=
+  (a.2.1 = b.2.1 ∧ (b.2.2 = .S ↔ a.2.2 ≠ .D)) ∨
+  (a.2.1.name ≠ b.2.1.name ∧ a.2.1.name ∈ predsOf p b.2.1.name ∧ a.2.2 ≠ .D ∧ b.2.2 ≠ .S ∧
+    capIn prog i b.2.1.caps = true)
+
+namespace Routed
+variable {c : Ctx N} {E : Nat → Nat}
+
+theorem hosted_of_mem_positions {i : Nat} {x : Nat × UnitM N × Stall} (hx : x ∈ c.positions i) :
+    c.hostedAt i x.1 :=
+  ⟨x.2.1.name, List.mem_map.2 ⟨_, (mem_positions.1 hx).2.2, rfl⟩⟩
+
+/-- two positions of `i` in consecutive cycles -/
+theorem pos_step (h : Routed c E) {i : Nat} {a b : Nat × UnitM N × Stall} (ha : a ∈ c.positions i)
+    (hb : b ∈ c.positions i) (hab : b.1 = a.1 + 1) : PosStep c.p c.prog i a b := by
+  obtain ⟨ta, ua, la⟩ := a
+  obtain ⟨tb, ub, lb⟩ := b
+  simp only at hab
+  subst hab
+  obtain ⟨ha1, ha2, ha3⟩ := mem_positions.1 ha
+  obtain ⟨hb1, hb2, hb3⟩ := mem_positions.1 hb
+  simp only at ha1 ha2 ha3 hb1 hb2 hb3
+  have st := h.step (ta + 1) hb1
+  rw [prevRow_succ] at st
+  have hia : i ∈ ((c.row ta).get ua.name).map (·.idx) := List.mem_map.2 ⟨_, ha3, rfl⟩
+  have same : ∀ n (y : HI), y ∈ (c.row ta).get n → y.idx = i → n = ua.name ∧ y = ⟨i, la⟩ := by
+    intro n y hy hyi
+    have e1 : n = ua.name := st.oldND.unique_host n ua.name i (List.mem_map.2 ⟨y, hy, hyi⟩) hia
+    subst e1
+    exact ⟨rfl, eq_of_key_eq_of_nodup (fun h : HI => h.idx) (st.oldND.nodup_unit _) hy ha3 hyi⟩
+  unfold PosStep
+  simp only
+  rcases st.origin ub.name ⟨i, lb⟩ hb3 with ⟨y, hy, hyi, _, hS⟩ | ⟨hnS, hm | his⟩
+  · obtain ⟨e1, e2⟩ := same _ y hy hyi
+    left
+    refine ⟨(unit_eq_of_name_eq h.names hb2 ha2 e1).symm, ?_⟩
+    rw [e2] at hS; exact hS
+  · obtain ⟨d, hd, hdn, q, hq, y, hy, hyi, hyd, hcap⟩ := hm
+    obtain ⟨e1, e2⟩ := same _ y hy hyi
+    right
+    have hdm : d.model = ub :=
+      unit_eq_of_name_eq h.names (model_mem_allUnits_of_mem_dests hd) hb2 hdn
+    refine ⟨?_, ?_, ?_, hnS, ?_⟩
+    · intro e3
+      exact orderOK_self_not_pred h.order hd (by rw [hdn, ← e3, ← e1]; exact hq)
+    · rw [← hdn, predsOf_of_mem h.names hd, ← e1]; exact hq
+    · rw [e2] at hyd; exact hyd
+    · rw [← hdm]; exact hcap
+  · exfalso
+    have := st.oldBase.idx_lt _ _ ha3
+    have := his.1
+    simp only at *
+    omega
+
+/-- a position whose instruction is not hosted in the cycle before: the instruction has just been issued -/
+theorem pos_first (h : Routed c E) {i : Nat} {x : Nat × UnitM N × Stall} (hx : x ∈ c.positions i)
+    (hprev : x.1 = 0 ∨ ¬ c.hostedAt i (x.1 - 1)) :
+    x.2.1 ∈ c.p.inBoundary ∧ x.2.2 ≠ .S ∧ capIn c.prog i x.2.1.caps = true ∧ E x.1 ≤ i ∧ i < E (x.1 + 1) := by
+  obtain ⟨t, u, l⟩ := x
+  obtain ⟨h1, h2, h3⟩ := mem_positions.1 hx
+  simp only at h1 h2 h3 hprev ⊢
+  have st := h.step t h1
+  have noprev : ∀ n (y : HI), y ∈ (prevRow c.tbl t).get n → y.idx = i → False := by
+    intro n y hy hyi
+    cases t with
+    | zero => simp [prevRow] at hy
+    | succ k =>
+      rw [prevRow_succ] at hy
+      rcases hprev with hp | hp
+      · omega
+      · exact hp ⟨n, List.mem_map.2 ⟨y, by simpa using hy, hyi⟩⟩
+  rcases st.origin u.name ⟨i, l⟩ h3 with ⟨y, hy, hyi, _⟩ | ⟨hnS, hm | his⟩
+  · exact (noprev _ y hy hyi).elim
+  · obtain ⟨d, _, _, q, _, y, hy, hyi, _⟩ := hm
+    exact (noprev _ y hy hyi).elim
+  · obtain ⟨h4, h5, port, hport, hpn, hcap⟩ := his
+    have : port = u := unit_eq_of_name_eq h.names (mem_allUnits_of_mem_inBoundary hport) h2 hpn
+    subst this
+    exact ⟨hport, hnS, hcap, h4, h5⟩
+
+/-- a position whose instruction is not hosted in the next recorded cycle: it left through the output boundary,
+unstalled -/
+theorem pos_gone (h : Routed c E) {i : Nat} {x : Nat × UnitM N × Stall} (hx : x ∈ c.positions i)
+    (hT : x.1 + 1 < c.T) (hnext : ¬ c.hostedAt i (x.1 + 1)) : x.2.1.name ∈ c.p.outBoundary ∧ x.2.2 = .U := by
+  obtain ⟨t, u, l⟩ := x
+  obtain ⟨h1, h2, h3⟩ := mem_positions.1 hx
+  simp only at h1 h2 h3 hT hnext ⊢
+  have st := h.step (t + 1) hT
+  rw [prevRow_succ] at st
+  obtain ⟨ho, hd⟩ := st.vanish u.name ⟨i, l⟩ h3 (fun n' hn' => hnext ⟨n', hn'⟩)
+  have hs := (h.step t h1).outB_not_S ho h3
+  simp only at hd hs
+  refine ⟨ho, ?_⟩
+  cases l <;> simp_all
+
+/-- a position in the last cycle of a returned diagram -/
+theorem pos_final (h : Routed c E) (hst : c.stalled = false) {i : Nat} {x : Nat × UnitM N × Stall}
+    (hx : x ∈ c.positions i) (hT : x.1 + 1 = c.T) : x.2.1.name ∈ c.p.outBoundary ∧ x.2.2 = .U := by
+  obtain ⟨_, _, h3⟩ := mem_positions.1 hx
+  have h3' : (⟨i, x.2.2⟩ : HI) ∈ (c.row x.1).get x.2.1.name := h3
+  exact (h.done hst).2 x.2.1.name ⟨i, x.2.2⟩ (by rw [← hT]; simpa using h3')
+
+end Routed
+
+/-- **The route of an instruction**, as a property of its list of positions `l`: non-empty; consecutive cycles related
+by `PosStep`; starts with `U`/`D` in a supporting input-boundary port in its cycle of issue; ends unstalled in an
+output-boundary port unless it is still in flight in the last cycle of a stall diagram. -/
+structure RouteOf (c : Ctx N) (E : Nat → Nat) (i : Nat) (l : List (Nat × UnitM N × Stall)) : Prop where
+  ne : l ≠ []
+  chain : Adjacent (fun a b => b.1 = a.1 + 1 ∧ PosStep c.p c.prog i a b) l
+  first : ∀ x, l.head? = some x →
+    x.2.1 ∈ c.p.inBoundary ∧ x.2.2 ≠ .S ∧ capIn c.prog i x.2.1.caps = true ∧ E x.1 ≤ i ∧ i < E (x.1 + 1)
+  last : ∀ x, l.getLast? = some x →
+    (c.stalled = true ∧ x.1 + 1 = c.T) ∨ (x.2.1.name ∈ c.p.outBoundary ∧ x.2.2 = .U)
+  mem : ∀ x ∈ l, x.1 < c.T ∧ x.2.1 ∈ c.p.allUnits
+
+/-- **Every issued instruction has a route** (`positions_chain`). -/
+theorem Routed.routeOf {c : Ctx N} {E : Nat → Nat} (h : Routed c E) {i : Nat} (hi : i < E c.T) :
+    RouteOf c E i (c.positions i) := by
+  obtain ⟨f, m, hm0, hfm, hf1, hf2, hiff⟩ := h.interval hi
+  have hpos := h.positions_eq_interval hfm hiff
+  have hsing : ∀ t, f ≤ t → t < f + m → ∃ x, c.rowPos i t = [x] :=
+    fun t h1 h2 => h.rowPos_singleton (by omega) ((hiff t (by omega)).2 ⟨h1, h2⟩)
+  have hmem : ∀ t, t < c.T → ∀ x ∈ c.rowPos i t, x ∈ c.positions i ∧ x.1 = t := by
+    intro t ht x hx
+    obtain ⟨e1, h2, h3⟩ := mem_rowPos.1 hx
+    exact ⟨mem_positions.2 ⟨by rw [e1]; exact ht, h2, by rw [e1]; exact h3⟩, e1⟩
+  refine ⟨?_, ?_, ?_, ?_, ?_⟩
+  · obtain ⟨x, hx⟩ := hsing f (Nat.le_refl _) (by omega)
+    intro e0
+    have := (hmem f (by omega) x (by rw [hx]; simp)).1
+    rw [e0] at this; cases this
+  · rw [hpos]
+    apply adjacent_flatMap_range' _ _ m f hsing
+    intro t a b h1 h2 ha hb
+    obtain ⟨ha1, ha2⟩ := hmem t (by omega) a ha
+    obtain ⟨hb1, hb2⟩ := hmem (t + 1) (by omega) b hb
+    have hab : b.1 = a.1 + 1 := by rw [ha2, hb2]
+    exact ⟨hab, h.pos_step ha1 hb1 hab⟩
+  · intro x hx
+    obtain ⟨x0, hx0⟩ := hsing f (Nat.le_refl _) (by omega)
+    rw [hpos, head?_flatMap_range' _ f m hm0 (by rw [hx0]; simp), hx0] at hx
+    simp only [List.head?_cons, Option.some.injEq] at hx
+    subst hx
+    obtain ⟨h1, h2⟩ := hmem f (by omega) x0 (by rw [hx0]; simp)
+    refine h.pos_first h1 ?_
+    rw [h2]
+    by_cases hf0 : f = 0
+    · exact Or.inl hf0
+    · right
+      intro hh
+      have := (hiff (f - 1) (by omega)).1 hh
+      omega
+  · intro x hx
+    obtain ⟨m', rfl⟩ : ∃ m', m = m' + 1 := ⟨m - 1, by omega⟩
+    obtain ⟨x0, hx0⟩ := hsing (f + m') (by omega) (by omega)
+    rw [hpos, getLast?_flatMap_range' _ f m' (by rw [hx0]; simp), hx0] at hx
+    simp only [List.getLast?_singleton, Option.some.injEq] at hx
+    subst hx
+    obtain ⟨h1, h2⟩ := hmem (f + m') (by omega) x0 (by rw [hx0]; simp)
+    by_cases hT : x0.1 + 1 = c.T
+    · cases hst : c.stalled with
+      | true => exact Or.inl ⟨rfl, hT⟩
+      | false => exact Or.inr (h.pos_final hst h1 hT)
+    · right
+      refine h.pos_gone h1 (by omega) ?_
+      intro hh
+      have := (hiff (x0.1 + 1) (by omega)).1 hh
+      omega
+  · intro x hx
+    obtain ⟨h1, h2, _⟩ := mem_positions.1 hx
+    exact ⟨h1, h2⟩
+
+/-- instructions that have not entered have no position -/
+theorem Routed.positions_eq_nil {c : Ctx N} {E : Nat → Nat} (h : Routed c E) {i : Nat} (hi : E c.T ≤ i) :
+    c.positions i = [] := by
+  rw [positions_eq_flatMap, List.flatMap_eq_nil_iff]
+  intro t ht
+  have ht' := List.mem_range.1 ht
+  apply rowPos_eq_nil_of_not_hosted (h.rowBase ht')
+  intro hh
+  have := h.hosted_lt ht' hh
+  have := h.mono (t := t + 1) (t' := c.T) (by omega) (Nat.le_refl _)
+  omega
+
+end positions
+
 end ProcSim
